@@ -187,6 +187,14 @@ def viability_condition(ctx, fi: FunctionInfo):
                         fk = fk.replace("+sorted", "_BY_RANK_NOT_BY_ORDER")
                         a = p_not(p_atom(f"DISTINCT_{fk}"))  # any(close) == not distinct
                         return p_not(a) if neg else a
+                    if f"{frame}['target_rate']" in a0 and f"{frame}['target_rate']" in a1 and ".shift(" in (a0 + a1):
+                        # rates of the same frame compared pairwise, but not every (k-1, k) pair of
+                        # order-adjacent groups: a different test from the one the statement describes
+                        fk = _frame_kind(cfg, fn, frame, use)
+                        if fk is None:
+                            return None
+                        a = p_not(p_atom(f"DISTINCT_ON_OTHER_PAIRS_{fk.replace('+sorted', '')}({a0.replace(' ', '')}~{a1.replace(' ', '')})"))
+                        return p_not(a) if neg else a
                     return None
                 # RANKS: all(T.sort_values("target_rate").index == D.sort_values("target_rate").index)
                 if kind == "all" and isinstance(arg, ast.Compare) and isinstance(arg.ops[0], ast.Eq):
@@ -628,3 +636,36 @@ def check_enum_bounds(ctx, rule: str):
     c3 = calls(f4, "consecutive_combinations")
     ok = len(c3) == 1 and [unparse(a) for a in c3[0].args[:2]] == ["raw_order", "max_n_mod"]
     ctx.ob(rule, construct(f4, "missing-value candidates are built on consecutive_combinations(raw_order, max_n_mod)"), ok, loc(f4))
+
+
+def check_stage_results(ctx, rule: str):
+    """Both search stages decide: the outcome of every _get_best_association call becomes the current
+    (best_association, order), so a failed missing-value stage drops the feature instead of silently
+    keeping the stage-1 carving with an untested NaN group."""
+    fg = ctx.repo.find_function(f"{F_BC}::BaseCarver._get_best_combination")
+    cfg = cfg_of(ctx, fg)
+    cs = calls(fg, "_get_best_association")
+    ok = len(cs) == 2
+    for c in cs:
+        par = cfg.parent(c)
+        ok = ok and isinstance(par, ast.Assign) and isinstance(par.targets[0], ast.Tuple) and [unparse(e) for e in par.targets[0].elts] == ["best_association", "order"]
+    ctx.ob(rule, construct(fg, "the result of each search stage replaces (best_association, order)"), ok, loc(fg, cs[-1] if cs else None),
+           "" if ok else "a stage whose result is not assigned to best_association cannot make the search fail: a non-viable missing-value placement is kept")
+
+
+def check_printer_raw(ctx, rule: str):
+    """The table the viability test reads is the frame built from the raw shares / rates, not a
+    rounded or otherwise post-processed copy."""
+    repo = ctx.repo
+    for cname in ("BinaryCarver", "ContinuousCarver"):
+        fi = repo.find_function(f"{cname}._printer")
+        builds = [n for n in walk_no_nested(fi.node) if isinstance(n, ast.Assign) and isinstance(n.value, (ast.Call, ast.Attribute, ast.Subscript)) and any(
+            isinstance(d, ast.Dict) and {const_value(k) for k in d.keys} >= {"target_rate", "frequency"} for d in ast.walk(n.value))]
+        ok = len(builds) == 1 and isinstance(builds[0].value, ast.Call) and call_name(builds[0].value) == "DataFrame" and isinstance(builds[0].value.func, ast.Name)
+        tgt = unparse(builds[0].targets[0]) if builds else None
+        later = [n for n in walk_no_nested(fi.node) if isinstance(n, (ast.Assign, ast.AugAssign)) and builds and n is not builds[0] and n.lineno > builds[0].lineno
+                 and any(unparse(t).split("[")[0].split(".")[0] == tgt for t in (n.targets if isinstance(n, ast.Assign) else [n.target]))]
+        rets = [r for r in walk_no_nested(fi.node) if isinstance(r, ast.Return)]
+        ok = ok and not later and all(unparse(r.value) == tgt for r in rets)
+        ctx.ob(rule, construct(fi, "the statistics frame is returned as built (no rounding / post-processing before the viability test reads it)"), ok, loc(fi, builds[0] if builds else None),
+               "" if ok else "frequencies / rates are transformed before the thresholds are applied: a group slightly below min_freq_mod can pass")
